@@ -270,7 +270,9 @@ func fsEnumerate(goit string, c *Chunk, evs []M, contents map[string][]byte, tz 
 					os.Remove(klog)
 					hit := false
 					for i := range kops {
-						if kops[i].Syscall == next.Syscall && kops[i].Ord == next.Ord && sameModTmp(strings.TrimPrefix(kops[i].Path, kd), strings.TrimPrefix(next.Path, base)) {
+						// (literal paths: a position on a temporary file cannot be identified across runs - its name differs, and
+						// the per-thread ordinal alone may denote another write of the same kind - so it is not cross-checked)
+						if kops[i].Syscall == next.Syscall && kops[i].Ord == next.Ord && strings.TrimPrefix(kops[i].Path, kd) == strings.TrimPrefix(next.Path, base) {
 							hit = true
 						}
 					}
